@@ -33,6 +33,7 @@ class Atomizer:
         self.atoms = {}       # z3 id -> sympy symbol
         self.terms = {}
         self.memo = {}
+        self.divs = []        # (atom, numerator poly, denominator poly, z3 denominator)
 
     def atom(self, e):
         k = e.get_id()
@@ -82,7 +83,12 @@ class Atomizer:
                 if dv == 0:
                     raise NotPoly()
                 return self.poly(ch[0]) / dv
-            return self.atom(e)          # quotient by a non-constant: opaque
+            q = self.atom(e)             # quotient by a non-constant: opaque, related to its operands only if the
+            try:                         # denominator is provably non-zero (checked in try_groebner)
+                self.divs.append((q, self.poly(ch[0]), self.poly(d), d))
+            except NotPoly:
+                pass
+            return q
         if k == z3.Z3_OP_POWER and (z3.is_int_value(ch[1]) and 0 <= ch[1].as_long() <= 8):
             return self.poly(ch[0]) ** ch[1].as_long()
         if k == z3.Z3_OP_UNINTERPRETED or k in (z3.Z3_OP_ITE, z3.Z3_OP_SELECT, z3.Z3_OP_IDIV, z3.Z3_OP_MOD, z3.Z3_OP_TO_INT,
@@ -133,6 +139,18 @@ def try_groebner(text, timeout_s=10.0, max_relations=40):
             rels.append(p)
         if time.time() - t0 > timeout_s:
             return False
+    # q = a / b with b provably non-zero under the assumptions gives the relation q * b - a = 0
+    seen_div = set()
+    for q, num, den, dz in list(A.divs):
+        if q in seen_div:
+            continue
+        seen_div.add(q)
+        s = z3.Solver()
+        s.set("timeout", 2000)
+        s.add(*fs[:-1])
+        s.add(dz == 0)
+        if s.check() == z3.unsat:
+            rels.append(sp.expand(q * den - num))
     # relevance: keep relations connected to the goal's indeterminates (three rounds), smallest first
     want = set()
     for p in goal_polys:
